@@ -260,6 +260,8 @@ DIRECTED = [
     "handlers = [lambda *args, **kwargs: (args, kwargs), lambda first, second, /: first + second, lambda value, *rest, flag=None: (value, rest, flag)]\n",
     "def f():\n    from django.db.models import Q\n    from re import I, M\n    alpha=beta=gamma=delta=epsilon=zeta=eta=theta=iota=kappa=lam=mu=nu=xi=omicron=pi=rho=sigma=1\n    return [alpha,beta,gamma,delta,epsilon,zeta,eta,theta,iota,kappa,lam,mu,nu,xi,omicron,pi,rho,sigma,Q,I,M,alpha,beta,gamma,delta,epsilon,zeta,eta,theta,iota,kappa,lam,mu,nu,xi,omicron,pi,rho,sigma]\n",
     "x = 1\ndef f(x):\n    class C:\n        x = x\n    return C.x\nprint(f(10))\n",
+    "__version_info__ = (1, 4, 2)\n__author_email__ = 'a@b'\n__all_names__ = []\n__x__ = 1\n__ = 2\n___ = 3\ndef handler(request):\n    __traceback_info__ = request\n    __traceback_supplement__ = (request, 1)\n    __tracebackhide__ = True\n    __ = request\n    return __traceback_info__, __version_info__, __tracebackhide__, __traceback_supplement__, __\nprint(handler(1), __author_email__, __all_names__, __x__, __, ___)\n",
+    'def outer():\n    __private_state__ = 0\n    def inner():\n        nonlocal __private_state__\n        __private_state__ += 1\n        return __private_state__\n    class K:\n        __slots_like__ = ()\n        def method(self, __weird_arg__=1):\n            return __weird_arg__\n    return inner(), K().method()\nprint(outer())\n',
     "'''shared documentation text'''\nclass Transport:\n    '''shared documentation text'''\n    async def connect(self, host):\n        '''open the connection to the host'''\n        return host\n    async def reconnect(self, host):\n        '''open the connection to the host'''\n        return host\n    def close(self):\n        '''shared documentation text'''\n        return 'shared documentation text', 'open the connection to the host'\nasync def ping():\n    '''open the connection to the host'''\ndef pong():\n    '''shared documentation text'''\nprint(Transport.connect.__doc__, Transport.close.__doc__, ping.__doc__, pong.__doc__, __doc__)\n",
     "def outer():\n    'repeated docstring value'\n    def inner():\n        'repeated docstring value'\n        return 'repeated docstring value'\n    async def ainner():\n        'repeated docstring value'\n    class K:\n        'repeated docstring value'\n    return inner.__doc__, ainner.__doc__, K.__doc__, inner()\nprint(outer(), outer.__doc__)\n",
     "value = 'module'\ndef f(value):\n    class C:\n        global value\n        seen = value\n        items = [item for item in value]\n    return C.seen, C.items, value\nprint(f('param'))\n",
